@@ -264,6 +264,14 @@ func (l *Liar) LiesAbout(n *chaingen.Node) bool {
 	return l.hashFor(n) != n.FilterHash
 }
 
+// ClaimedHash returns the filter hash the liar announces for n in its
+// cfheaders (the true one where it does not lie).
+func (l *Liar) ClaimedHash(n *chaingen.Node) chainhash.Hash {
+	l.mu.Lock()
+	defer l.mu.Unlock()
+	return l.hashFor(n)
+}
+
 // Mutate is installed as Peer.Mutate.
 func (l *Liar) Mutate(p *Peer, req wire.Message, honest []wire.Message) []wire.Message {
 	l.mu.Lock()
